@@ -81,7 +81,7 @@ Verdict(c) ==
      ELSE IF c.finite = 0 THEN <<"fail", "C02-value-not-finite">>
      ELSE IF c.mine # "C06" /\ c.brute = 1 /\ ~Close(c, c.dist, WassersteinDef(c, m, n)) THEN <<"fail", "C02-not-optimal">>
      ELSE IF c.mine # "C06" /\ c.dual = 1 /\ ~FCloseRel(c.dist, DualValue(c, m, n), E9, E9) THEN <<"fail", "C02-not-optimal-dual">>
-     ELSE IF c.mine # "C06" /\ ((c.warn[1] = 1) # dropped1 \/ (c.warn[2] = 1) # dropped2) THEN <<"fail", "C02-warning-iff-dropped">>
+     ELSE IF c.mine # "C06" /\ ((dropped1 /\ c.warn[1] = 0) \/ (dropped2 /\ c.warn[2] = 0)) THEN <<"fail", "C02-dropped-without-warning">>
      ELSE IF c.hasrows = 1 /\ ~Close(c, c.distm, c.dist) THEN <<"fail", "C06-distance-differs-with-matching">>
      ELSE IF c.hasrows = 1 /\ ~Certifies(c, PX, PY) THEN <<"fail", "C06-not-a-certificate">>
      ELSE <<"ok", "">>
